@@ -1,5 +1,7 @@
 package rules
 
+import "verif/tools/internal/ir"
+
 // pin is one pinned canonical form (normal form "nf" or emission template "tpl") of a function,
 // with the documented fact it formalises.
 type pin struct {
@@ -16,6 +18,18 @@ func (c *Ctx) checkPins(f *FC, rule string, pins []pin) {
 		switch p.kind {
 		case "nf":
 			c.expectNF(f, rule, p.fn, []string{p.want}, p.why)
+		case "ksnf":
+			// normal form with cell identity kept (hand-written imperative emitters)
+			fn, ok := f.Prog.ByName[p.fn]
+			if !ok {
+				c.R.Undecided(rule, p.fn, "definition", f.M.Dir, "anchor function not found (renamed or removed): "+p.why)
+				continue
+			}
+			ks := ir.NewNormalizer()
+			ks.KeepShared = true
+			got := ir.String(f.Path, ks.Func(fn))
+			c.R.Check(got == p.want, rule, p.fn, "closed-form", c.Pos(f.M.Fset, fn.Decl.Pos()), p.why,
+				"closed form is not the reviewed one ("+p.why+"); "+diffHint(got, p.want))
 		case "tpl":
 			if sh == nil {
 				sh = newShaper(f)
